@@ -6,6 +6,9 @@ EXTENDS Routing, Json
 Unknown == <<88>>
 Flip(b) == [i \in 1..Len(b) |-> IF IsUpper(b[i]) THEN b[i] + 32 ELSE IF b[i] >= 97 /\ b[i] <= 122 THEN b[i] - 32 ELSE b[i]]
 PctDot(b) == FlattenSeq([i \in 1..Len(b) |-> IF b[i] = 46 THEN <<37, 50, 69>> ELSE <<b[i]>>])
+\* the same name with its first byte percent-encoded (legal in an HTTP/2 :path, equivalent under RFC 3986 - and still not "exactly /S/M")
+HexDigit(d) == IF d < 10 THEN 48 + d ELSE 55 + d
+PctFirst(b) == IF b = <<>> THEN b ELSE <<37, HexDigit(b[1] \div 16), HexDigit(b[1] % 16)>> \o Tail(b)
 MethAll == { MethBytes[m] : m \in Methods } \cup {Unknown}
 PathsFor(s, me) ==
                  { Slash \o s \o Slash \o me, Slash \o s \o Slash \o me \o Slash, Slash \o Slash \o s \o Slash \o me,
@@ -13,7 +16,8 @@ PathsFor(s, me) ==
                    Slash \o Flip(s) \o Slash \o me, Slash \o s \o Slash \o Flip(me), Slash \o s \o <<50>> \o Slash \o me,
                    Slash \o s \o <<37, 50, 70>> \o me, Slash \o PctDot(s) \o Slash \o me, Slash \o s \o Slash \o me \o <<63, 113, 61, 49>>,
                    Slash \o <<120, 46>> \o s \o Slash \o me, Slash \o s \o <<46, 120>> \o Slash \o me, Slash \o s \o Slash \o me \o <<50>>,
-                   Slash \o s \o Slash \o <<32>> \o me }
+                   Slash \o s \o Slash \o <<32>> \o me,
+                   Slash \o s \o Slash \o PctFirst(me), Slash \o PctFirst(s) \o Slash \o me, Slash \o s \o Slash \o me \o <<37, 51, 70, 120>> }
 Paths == UNION { PathsFor(SvcBytes[sv], me) : sv \in AllSvcs, me \in MethAll }
          \cup UNION { { Slash \o SvcBytes[sv], Slash \o SvcBytes[sv] \o Slash } : sv \in AllSvcs }
          \cup { Slash, <<42>>, Slash \o Slash, Slash \o <<88>> \o Slash \o <<77>> }
